@@ -135,6 +135,98 @@ class Probe:
         return True, rec[0] if rec else None
 
 
+HIST_POOL = ["root/index.html", "root/sub/page.html", "root/sub/deep/leaf.html", "root/..a/odd.html", "root2/other.html",
+             "root2/index.html", "secret.txt", "rootx/index.html", "rootx/evil.html", "outside/evil.html"]
+HIST_URIS = ["index.html", "/index.html", "//index.html", "sub/page.html", "/sub/../index.html", "sub\\page.html",
+             "/sub/deep/../page.html", "other.html", "/./other.html", "sub/deep/leaf.html", "..a/odd.html", "",
+             "../secret.txt", "/../rootx/index.html", "sub/../../rootx/evil.html", "..\\secret.txt",
+             "/..//outside/evil.html", "\\..\\rootx\\evil.html", "sub/../../root/index.html", "/../root2/other.html",
+             "sub/deep/../../../secret.txt", "/sub/..\\..\\secret.txt", "missing.html", "/sub/missing.html"]
+
+
+def lookup_history(ctx, drv, st):
+    from mako.lookup import TemplateLookup
+    from mako import exceptions as X
+    rng = ctx.rng
+    nhist = 250 if ctx.quick else 4000
+    base = os.path.realpath(tempfile.mkdtemp(prefix="c09h_"))
+    try:
+        reqs, reals, cases = [], [], []
+        for hno in range(nhist):
+            work = os.path.join(base, "h%d" % hno)
+            dirsets = [["root"], ["root", "root2"], ["root/"], ["root/./sub/.."], ["root2", "root"], ["root//", "root2/."]]
+            dirs = [os.path.join(work, d) for d in rng.choice(dirsets)]
+            fs = rng.random() < 0.7
+            files0 = [f for f in HIST_POOL if rng.random() < 0.6]
+            for f in files0:
+                fp = os.path.join(work, f)
+                os.makedirs(os.path.dirname(fp), exist_ok=True)
+                with open(fp, "w") as fh:
+                    fh.write("x")
+            for d in ("root", "root2"):
+                os.makedirs(os.path.join(work, d), exist_ok=True)
+            lk = TemplateLookup(directories=dirs, filesystem_checks=fs)
+            ops, outs = [], []
+            for _ in range(rng.randint(8, 28)):
+                r = rng.random()
+                if r < 0.5 or r < 0.65:
+                    kind = "g" if r < 0.5 else "h"
+                    uri = rng.choice(HIST_URIS) if rng.random() < 0.8 else attack_uri(rng, work)
+                    if "\0" in uri:
+                        continue
+                    ops.append((kind, uri))
+                    cached = uri in lk._collection
+                    if kind == "h":
+                        try:
+                            outs.append("T" if lk.has_template(uri) else "F")
+                        except Exception as e:          # noqa: BLE001 - reported as an outcome
+                            outs.append("E:" + type(e).__name__)
+                        ctx.branch("hist:has:" + outs[-1][:1])
+                        continue
+                    try:
+                        t = lk.get_template(uri)
+                        outs.append("S" + enc(t.filename))
+                        ctx.branch("hist:get:served-" + ("hit" if cached else "fresh"))
+                    except X.TopLevelLookupException:
+                        outs.append("N")
+                        ctx.branch("hist:get:not-found")
+                    except X.TemplateLookupException:
+                        outs.append("N" if cached else "R")
+                        ctx.branch("hist:get:" + ("dropped-after-delete" if cached else "rejected"))
+                    except Exception as e:              # noqa: BLE001
+                        outs.append("E:" + type(e).__name__)
+                        ctx.branch("hist:get:other-exception")
+                else:
+                    f = rng.choice(HIST_POOL)
+                    fp = os.path.join(work, f)
+                    if os.path.isfile(fp):
+                        os.remove(fp)
+                        ops.append(("d", fp))
+                    else:
+                        os.makedirs(os.path.dirname(fp), exist_ok=True)
+                        with open(fp, "w") as fh:
+                            fh.write("y")
+                        ops.append(("a", fp))
+                    outs.append("_")
+            shutil.rmtree(work, ignore_errors=True)
+            fl = [os.path.join(work, f) for f in files0]
+            reqs.append("path hist %s %d %s %d %s %s" % (
+                "1" if fs else "0", len(dirs), " ".join(enc(d) for d in dirs), len(fl), " ".join(enc(f) for f in fl),
+                " ".join("%s %s" % (k, enc(a)) for k, a in ops)))
+            reals.append(";".join(outs))
+            cases.append({"dirs": [os.path.relpath(d, work) for d in dirs], "filesystem_checks": fs,
+                          "files": files0, "ops": [[k, a.replace(work, "<base>")] for k, a in ops]})
+        got = drv.ask_many([" ".join(r.split()) for r in reqs])
+        for c, m, r in zip(cases, got, reals):
+            st["cases"] += len(c["ops"])
+            if m != r:
+                ctx.disagree("corr.lookup_history", c, m, r)
+            elif "S" in r and "R" in r:
+                ctx.nontriv(("hist", r.count("S"), r.count("R"), r.count("N")))
+    finally:
+        shutil.rmtree(base, ignore_errors=True)
+
+
 def corr(ctx):
     drv = ctx.driver()
     probe = Probe()
@@ -256,6 +348,11 @@ def corr(ctx):
         want = lk.adjust_uri(u, r)
         if o != enc(want):
             ctx.disagree("corr.adjust_uri", {"input": u, "relativeto": r}, o, want)
+    # (a5) the lookup as a state machine: histories of get_template / has_template interleaved with file creations and
+    # deletions (inside and outside the directories), on a real directory tree; the model runs the same history
+    st = ctx.stream("corr.lookup_history")
+    lookup_history(ctx, drv, st)
+
     ctx.sample({"stream": "corr.get_template_probe", "dir": "/srv/t", "uri": "/sub//..\\../a../x",
                 "model=impl": probe.src("/srv/t", "/sub//..\\../a../x")})
 
